@@ -65,16 +65,15 @@ def scenarios(ctx):
     one = ["O", "F", "R", "G", "S"]
     if ctx.quick:
         for k in one:
-            out.append((1, k + "O", 2, ("0", "0")))
-            out.append((1, k + "O", 1, ("00", "0")))
+            out.append((1, k + "O", 2 if k in "OF" else 1, ("0", "0")))
             out.append((1, k + "O", 1, ("s0", "0")))
-            out.append((1, k + "O", 1, ("0", "0", "0")))
-        for kinds in ("OO", "FO", "XO", "XX", "RX", "GF", "XF"):
+        out.append((1, "OO", 1, ("00", "0")))
+        out.append((1, "OO", 1, ("0", "0", "0")))
+        out.append((1, "FO", 1, ("0", "0", "0")))
+        for kinds in ("OO", "FO", "XO", "XX", "RX", "GF"):
             out.append((2, kinds, 1, ("0", "1")))
-            out.append((2, kinds, 1, ("01", "10")))
+        out.append((2, "XF", 1, ("01", "10")))
         out.append((2, "XO", 2, ("0", "1")))
-        out.append((2, "XX", 2, ("0", "1")))
-        out.append((2, "OO", 1, ("0", "1", "0")))
     else:
         for k in one:
             for progs in (("0", "0"), ("00", "0"), ("s0", "0"), ("0s", "s"), ("s", "s")):
@@ -139,7 +138,7 @@ def monitor(log):
             st = initend.get(lib)
             if (st == "ok" and r != 0) or (st == "fail" and r != -1) or st is None:
                 bad.append("cffi_start_python-wrong-status")
-        elif k in ("DEADLOCK", "LIVELOCK"):
+        elif k in ("DEADLOCK", "LIVELOCK", "HORIZON"):
             bad.append("call-does-not-terminate")
         elif k == "CRASH":
             bad.append("crash")
